@@ -104,3 +104,29 @@ Proof. exact @addr_single_gen_sound. Qed.
 
 Print Assumptions C08_wrapper_regenerated.
 Print Assumptions C08_wrapper_regenerated_sound.
+
+(* ------------------------------------------------------------------------------------------------------------
+   Extension (store round): AddrFields._store_results / _set_addr_values and the BlockTransactionContext objects / accessors
+   are REGENERATED (tools/translate_store.py -> Gen/StoreGen.v).  Lemmas/StoreGenLemmas.v: after the regenerated store every
+   slot (b, fam) holds, for each of the four (key, attribute) pairs whose key is in BASE_KEYS, the AddrFieldValue of the
+   solver result of ITS OWN key key_of_fam key fam in that attribute (addr_rel); nothing else changes; the AddrFieldValue
+   is the one the detectors' model reads (Detect.addrval_of). *)
+From Tealer Require Import GraphGen SolverGen RunGen StoreGen Detect RunGenLemmas StoreGenLemmas.
+
+Theorem C08_store_results_regenerated :
+  forall (f : func) (d : gdict sset) (BK : list string) (t : state ctxobj),
+    (forall b, In b (function_blocks f) -> exists c, lookup ctxobj t b = Some c /\ ctx_shape c) ->
+    (forall p b fam, In p addr_pairs -> str_in (fst p) BK = true -> In b (function_blocks f) -> In fam all_fams ->
+       bc_get d (key_of_fam (fst p) fam) b <> None) ->
+    exists t', addr_store_results_gen f d BK t = Some t' /\
+      (forall b, ~ In b (function_blocks f) -> lookup ctxobj t' b = lookup ctxobj t b) /\
+      (forall b c, lookup ctxobj t b = Some c -> ctx_shape c -> exists c', lookup ctxobj t' b = Some c' /\ ctx_shape c') /\
+      (forall b, In b (function_blocks f) -> forall fam, In fam all_fams -> exists o o',
+         read_slot t b fam = Some o /\ read_slot t' b fam = Some o' /\ addr_rel d BK b fam addr_pairs o o').
+Proof. exact @addr_store_read_back. Qed.
+
+Theorem C08_set_addr_values_regenerated : forall (a : addrval) (v : sset), set_addr_values_gen a v = addrval_of v.
+Proof. exact @set_addr_values_addrval_of. Qed.
+
+Print Assumptions C08_store_results_regenerated.
+Print Assumptions C08_set_addr_values_regenerated.
